@@ -274,12 +274,17 @@ func init() {
 				st := lookupType(c.W, "providerSetSrc").Underlying().(*types.Struct)
 				seen := map[string]bool{}
 				ds.inspect(ds.Decl.Body, func(nd ast.Node) bool {
-					if cc, ok := nd.(*ast.CaseClause); ok {
-						for _, e := range cc.List {
-							if x, isNil, ok := ds.nilTest(Cond{Kind: "bool", Expr: e}); ok && !isNil {
-								if f := ds.selField(x); f != nil {
-									seen[f.Name()] = true
-								}
+					var arms []ast.Expr
+					switch x := nd.(type) {
+					case *ast.CaseClause:
+						arms = x.List
+					case *ast.IfStmt:
+						arms = disjuncts(x.Cond)
+					}
+					for _, e := range arms {
+						if x, isNil, ok := ds.nilTest(Cond{Kind: "bool", Expr: e}); ok && !isNil {
+							if f := ds.selField(x); f != nil {
+								seen[f.Name()] = true
 							}
 						}
 					}
